@@ -1,3 +1,3 @@
 SPECIFICATION Spec
-INVARIANTS ReadIsPrefix ReadSeesReturned ReadsMonotonic ReaderIsPrefix ReaderStable
+INVARIANTS TermReadOneSnapshot ReadIsPrefix ReadSeesReturned ReadsMonotonic ReaderIsPrefix ReaderStable
 CHECK_DEADLOCK FALSE
